@@ -12,7 +12,7 @@ Decided clauses:
   * R-WIDTH (8/16-bit digits) no comparison/shift/division on an untruncated wrap-sensitive digit expression
 Not decided: numerical exactness of results.
 """
-from rules import driver, core, r_err, r_mpt, r_range, ts_bn, r_carry
+from rules import driver, core, r_err, r_mpt, r_range, ts_bn, r_carry, r_dim
 from rules.core import key, const_val, walk
 from props import common, fixtures
 
@@ -342,7 +342,7 @@ def run(rep, tier):
     us = driver.load_units(specs)
     rep.use_units(us)
     first = True
-    n_err = n_ts = n_div = n_sh = n_carry = 0
+    n_err = n_ts = n_div = n_sh = n_carry = n_dim = 0
     for (l, d, w) in cs:
         u = us[l]
         S, _ = r_err.status_functions(u)
@@ -357,6 +357,9 @@ def run(rep, tier):
             width_rule(rep, fn, w)
             cc = r_carry.check(rep, fn)
             wide_shift_rule(rep, fn)
+            nd = r_dim.check(rep, u, [fn], ("BN_DIGIT_BITS", "BN_BIT_LEN", "BN_DIGIT_BIT_CNT"), ("BN_DIGIT_SIZE",))
+            if first:
+                n_dim += nd
             if first:
                 n_carry += cc
             if first:
@@ -370,12 +373,13 @@ def run(rep, tier):
     rep.floor("variable divisions", n_div, 6)
     rep.floor("variable shifts", n_sh, 15)
     rep.floor("carry/borrow stores", n_carry, 5)
+    rep.floor("bit/byte dimensioned expressions", n_dim, 20)
     return driver.finish(
         rep, "other",
         "Static analysis of math/big_num.h in %d configurations (digit widths 8..128, compiler double-width vs portable "
         "multiply/divide, pointer checks on/off). Decided: all configurations build; no bn_* status dropped; bn_t locals "
         "initialised on every path before use; variable divisors excluded from zero; variable shift amounts bounded (or "
-        "listed undecided); no promotion-sensitive digit expression in narrow builds. NOT decided: that results equal "
+        "listed undecided); no promotion-sensitive digit expression in narrow builds; bit counts and byte counts are never added, subtracted or compared with each other and shift amounts are bit counts (R-UNIT dimension check). NOT decided: that results equal "
         "the mathematical values." % len(us),
         ["status functions follow the 0/errno convention", "tabled R-ERR exceptions were confirmed by reading"], TRUSTED)
 
